@@ -79,6 +79,12 @@ class Facts:
                 r["_unit"] = tag
             self.units[tag] = recs
             self.records.extend(recs)
+        self.diagnostics = []
+        if files:
+            dp = os.path.join(os.path.dirname(files[0]), "diagnostics.json")
+            if os.path.exists(dp):
+                with open(dp) as fh:
+                    self.diagnostics = json.load(fh)
         self._by_kind = {}
         for r in self.records:
             self._by_kind.setdefault(r["k"], []).append(r)
@@ -124,7 +130,7 @@ def run_config(name, cwd, cargo_args, crates, extra_hash="", env_extra=None, qui
         env = dict(os.environ)
         env.update({
             "LD_LIBRARY_PATH": sysroot() + "/lib",
-            "RUSTFLAGS": ("-Zmir-opt-level=0 -Awarnings " + rustflags_extra).strip(),
+            "RUSTFLAGS": ("-Zmir-opt-level=0 " + rustflags_extra).strip(),
             "RUSTC_WRAPPER": DRIVER,
             "CGV_OUT": out,
             "CGV_CRATES": ",".join(crates),
@@ -136,10 +142,34 @@ def run_config(name, cwd, cargo_args, crates, extra_hash="", env_extra=None, qui
         if env_extra:
             env.update(env_extra)
         t0 = time.time()
-        p = subprocess.run(["cargo", "+nightly"] + cargo_args + ["--offline"], cwd=cwd, env=env,
-                           stdout=subprocess.PIPE, stderr=subprocess.STDOUT, text=True)
+        p = subprocess.run(["cargo", "+nightly"] + cargo_args + ["--offline", "--message-format=json"], cwd=cwd, env=env,
+                           stdout=subprocess.PIPE, stderr=subprocess.PIPE, text=True)
+        diags = []
+        for line in p.stdout.splitlines():
+            if not line.startswith("{"):
+                continue
+            try:
+                m = json.loads(line)
+            except ValueError:
+                continue
+            if m.get("reason") == "compiler-message":
+                d = m["message"]
+                diags.append({
+                    "package": m.get("package_id", ""),
+                    "target": (m.get("target") or {}).get("name"),
+                    "level": d.get("level"),
+                    "code": (d.get("code") or {}).get("code"),
+                    "message": d.get("message"),
+                    "spans": [{"file": sp["file_name"], "line": sp["line_start"], "text": [t["text"] for t in sp.get("text", [])][:1],
+                               "primary": sp.get("is_primary")} for sp in d.get("spans", [])],
+                    "children": [c.get("message") for c in d.get("children", [])],
+                    "rendered": d.get("rendered"),
+                })
         if p.returncode != 0:
-            sys.stderr.write(p.stdout[-6000:])
+            for d in diags:
+                if d["level"] == "error":
+                    sys.stderr.write(d.get("rendered") or d["message"])
+            sys.stderr.write(p.stderr[-4000:])
             raise RuntimeError("cgv: cargo failed for configuration %s (the analysed tree does not compile)" % name)
         files = sorted(os.path.join(out, f) for f in os.listdir(out) if f.endswith(".jsonl"))
         if not files:
@@ -148,6 +178,8 @@ def run_config(name, cwd, cargo_args, crates, extra_hash="", env_extra=None, qui
         tmpc = tempfile.mkdtemp(prefix="tmp.", dir=CACHE)
         for f in files:
             shutil.copy(f, tmpc)
+        with open(os.path.join(tmpc, "diagnostics.json"), "w") as fh:
+            json.dump(diags, fh)
         with open(os.path.join(tmpc, "DONE"), "w") as fh:
             fh.write("%s %.1fs\n" % (name, time.time() - t0))
         if os.path.isdir(cdir):
